@@ -262,8 +262,8 @@ theorem C09_public_pair_coords (S : Setting g) (hodd : g.c.n % 2 = 1) {s : Nat} 
 
 /-- the prefix table, whole: on every network of `Gen/Networks` whose Base58Check is double-SHA-256 and for each of
 bip32 / bip49 / bip84, either the network defines neither prefix, or `bipNN_as_string` prepends exactly the prefixes
-`ParseAPI` tests for, both are 4 bytes long, and the private and public one differ (`decide` over the table
-regenerated from the source on every run) -/
+`ParseAPI` tests for and both are 4 bytes long (`decide` over the table regenerated from the source on every run).
+That the private and the public prefix differ is not needed: `deserialize` tells the two by byte 45. -/
 theorem C09_prefix_table : ∀ net ∈ Pycoin.Gen.Networks.all, net.b58DoubleSha = true →
     prefixesOk net .bip32 = true ∧ prefixesOk net .bip49 = true ∧ prefixesOk net .bip84 = true :=
   prefix_table
@@ -273,7 +273,8 @@ defines — bip32, bip49, bip84; `a` is its private prefix —, every constructe
 depth ≤ 255 and child number < 2³²:
 * `hwif(as_private=True)` is a text that `network.parse.bipNN` maps back to the node, every field preserved;
 * `hwif(as_private=False)` is a text that `network.parse.bipNN` maps to the node without its exponent
-  (the private prefix is tried first and does not match: the prefixes are distinct and equally long).
+  (the private prefix is tried first; equally long, it either does not match or — were the two prefixes equal — the
+  private attempt itself returns the public node, byte 45 deciding).
 Uses the C11 Base58Check round trip. -/
 theorem C09_hwif_rt (S : Setting g) (hodd : g.c.n % 2 = 1) (h4 : g.c.p % 4 = 3) (hbc : byteCount g.c.p = 32)
     (net : Network) (hmem : net ∈ Pycoin.Gen.Networks.all) (hnet : net.b58DoubleSha = true)
